@@ -343,6 +343,44 @@ func init() {
 				}
 			}
 		}
+		// other geometries: several rows, a negative origin, a destination wider and taller than the source (its
+		// stride differs) or a window of a larger canvas; alpha of every source pixel arrives at its place
+		for _, tc := range transformCases() {
+			if !strings.Contains(tc.name, "Image") {
+				continue
+			}
+			sr := image.Rect(-3, -5, 5, 4)
+			src := image.NewRGBA64(sr)
+			for y := sr.Min.Y; y < sr.Max.Y; y++ {
+				for x := sr.Min.X; x < sr.Max.X; x++ {
+					a := uint16(((x+3)*9+(y+5))*811 + 7)
+					src.SetRGBA64(x, y, color.RGBA64{a / 3, a / 2, a, a})
+				}
+			}
+			canvas := image.NewRGBA64(image.Rect(-8, -9, 12, 11))
+			for _, dst := range []*image.RGBA64{image.NewRGBA64(image.Rect(-3, -5, 9, 7)), canvas.SubImage(image.Rect(-3, -5, 6, 5)).(*image.RGBA64)} {
+				for _, par := range []int{2, 3, 4} {
+					for i := range dst.Pix {
+						dst.Pix[i] = 0x55
+					}
+					tc.run(dst, src, par)
+					bad := false
+					for y := sr.Min.Y; y < sr.Max.Y && !bad; y++ {
+						for x := sr.Min.X; x < sr.Max.X; x++ {
+							_, _, _, wa := src.At(x, y).RGBA()
+							_, _, _, ga := dst.At(x, y).RGBA()
+							c.res.count("image-alpha-geometry", fmt.Sprint(tc.name, dst.Stride, par, x, y), true)
+							if ga != wa {
+								c.res.fail(Failure{Class: "C14:image-alpha:geometry", Desc: fmt.Sprintf("%s (source %v, destination %v with stride %d, parallelism %d): the alpha of source pixel (%d,%d) is not the alpha found at that place in the destination", tc.name, sr, dst.Bounds(), dst.Stride, par, x, y),
+									Input: map[string]interface{}{"transform": tc.name, "src_bounds": sr.String(), "dst_bounds": dst.Bounds().String(), "dst_stride": dst.Stride, "parallelism": par, "pixel": fmt.Sprint(x, y)}, Got: fmt.Sprintf("%#x", ga), Want: fmt.Sprintf("%#x", wa)})
+								bad = true
+								break
+							}
+						}
+					}
+				}
+			}
+		}
 		if st := writeXCheck(gdir, "From Coq Require Import ZArith.\nFrom PrismV Require Import Num.Quant Num.Reps Num.Premul."); st != nil {
 			c.res.GenStages = append(c.res.GenStages, st)
 		}
